@@ -1247,6 +1247,27 @@ func measureXHandler(raw json.RawMessage) map[string]any {
 	if msg != "" {
 		out["area"] = "panic"
 	}
+	// Length() of the whole, of every polygon, and of every ring as a LineString and as a LinearRing
+	lens := map[string]any{}
+	rec := func(key string, f func() float64) {
+		v, msg := guardF(f)
+		if msg != "" {
+			lens[key] = "panic"
+		} else {
+			lens[key] = exactStr(v)
+		}
+	}
+	rec("mp", mp.Length)
+	for pi := 0; pi < mp.NumPolygons(); pi++ {
+		pg := mp.Polygon(pi)
+		rec(fmt.Sprintf("pg%d", pi), pg.Length)
+		for ri := 0; ri < pg.NumLinearRings(); ri++ {
+			lr := pg.LinearRing(ri)
+			rec(fmt.Sprintf("lr%d.%d", pi, ri), lr.Length)
+			rec(fmt.Sprintf("ls%d.%d", pi, ri), geom.NewLineStringFlat(layout, lr.FlatCoords()).Length)
+		}
+	}
+	out["lens"] = lens
 	return out
 }
 
